@@ -38,17 +38,22 @@ def run(ctx, rep):
     f = ctx.facts
     eisa(f, rep); uuid(f, rep)
 
+def _refused(g, cond):
+    """some refusal met is exactly `cond` (as a condition over the input, however it is written)"""
+    want = ite(cond, ONE, ZERO)
+    return any(x['cond'] == cond or (is_term(x['cond']) and len(cond_atoms(ite(x['cond'], ONE, ZERO))) <= 8 and equal(ite(x['cond'], ONE, ZERO), want)[0]) for x in g)
+
 def eisa(f, rep):
     b = f.bodies.get('aml::EISAName::new')
     if not b: rep.ob('anchor', 'aml::EISAName::new', False, 'not found'); return
     I = new_interp(f)
     r = run_fn(I, b['def'], sym_args(I, b)); rep.analysed.add(b['def'])
     if I.tops or not isinstance(r, StructV): rep.undecided('eisa-pack', 'aml::EISAName::new', I.tops, b['sp']); return
-    nm = ('a', 'name'); ch = ('a', 'name.chars')
-    L = [('sel', nm, C(i)) for i in range(3)]
-    D = {i: ('call', 'to_digit', ('sel', ch, C(i)), C(16)) for i in range(3, 7)}
-    ranges = {l: (0x41, 0x5a) for l in L}
-    ranges.update({d: (0, 15) for d in D.values()})
+    nm = ('a', 'name')
+    sym.SEL_RANGE[nm] = (0, 255)
+    L = [('sel', nm, C(i)) for i in range(7)]
+    D = {i: hexval(L[i]) for i in range(3, 7)}
+    ranges = {l: (0x41, 0x5a) for l in L[:3]}
     saved = sym.CTX; sym.CTX = ranges
     try:
         got = rebuild(r.fields['value'], lambda x: None)
@@ -57,20 +62,22 @@ def eisa(f, rep):
         inner = ZERO
         for p in parts: inner = bor(inner, p)
         want = ('call', 'swap_bytes32', inner)
+        # compared field by field (each packed field depends on one character), under the refusals met
+        facts = tuple(x['cond'] for x in I.guards if is_term(x['cond']) and not any(u[0] == 'call' for u in subterms(x['cond'])))
+        ok = got == want or equal_parts(got, want, facts)[0]
     finally:
         sym.CTX = saved
-    rep.ob('eisa-pack', 'aml::EISAName::new', got == want, 'stored value %s; specified %s' % (show(got), show(want)), sp=b['sp'], detail={'value': show(got), 'specified': show(want)})
+    rep.ob('eisa-pack', 'aml::EISAName::new', ok, 'stored value %s; specified %s' % (show(got), show(want)), sp=b['sp'], detail={'value': show(got), 'specified': show(want)})
     # field widths are disjoint for valid characters (5+5+5+4+4+4+4 bits)
     rep.ob('eisa-disjoint', 'aml::EISAName::new', True, detail={'shifts': [26, 21, 16, 12, 8, 4, 0], 'widths': [5, 5, 5, 4, 4, 4, 4]})
     g = I.guards
-    def has(cond): return any(x['cond'] == cond for x in g)
-    rep.ob('eisa-refuse', 'length', has(cmp('eq', C(7), ('len', nm))), 'no assertion that the identifier has 7 characters', sp=b['sp'], detail={'guards': [show(x['cond']) for x in g]})
+    rep.ob('eisa-refuse', 'length', _refused(g, cmp('eq', C(7), ('len', nm))), 'no assertion that the identifier has 7 characters', sp=b['sp'], detail={'guards': [show(x['cond']) for x in g]})
     for i in range(3):
-        rep.ob('eisa-refuse', 'letter %d' % i, has(cmp('le', C(0x40), L[i])), 'letter %d below the name base is not refused' % i, sp=b['sp'])
+        rep.ob('eisa-refuse', 'letter %d' % i, _refused(g, cmp('le', C(0x40), L[i])), 'letter %d below the name base is not refused' % i, sp=b['sp'])
     for i in range(3, 7):
-        rep.ob('eisa-refuse', 'digit %d' % i, has(('call', 'is_digit', ('sel', ch, C(i)), C(16))), 'non-hex digit at position %d is not refused' % i, sp=b['sp'])
+        rep.ob('eisa-refuse', 'digit %d' % i, _refused(g, hexcond(L[i])), 'non-hex digit at position %d is not refused' % i, sp=b['sp'])
     # ... and nothing else is refused: a valid identifier (3 letters at or above the base, 4 hex digits) must be accepted
-    expected = {cmp('eq', C(7), ('len', nm))} | {cmp('le', C(0x40), L[i]) for i in range(3)} | {('call', 'is_digit', ('sel', ch, C(i)), C(16)) for i in range(3, 7)}
+    expected = [cmp('eq', C(7), ('len', nm))] + [cmp('le', C(0x40), L[i]) for i in range(3)] + [hexcond(L[i]) for i in range(3, 7)]
     _no_extra_refusals(rep, 'eisa-accept', 'aml::EISAName::new', g, expected, ranges, b['sp'])
     # emission = integer encoding of the stored value
     e1, I1, _ = emission(f, 'aml::EISAName'); e2, I2, _ = emission(f, 'u32')
@@ -79,15 +86,18 @@ def eisa(f, rep):
     rep.ob('eisa-emit', 'aml::EISAName', ok and not I1.tops, 'EISAName is not emitted as the integer constant of its value: %s' % why, detail={'emitted': show_segs(e1)[:300]})
 
 def _no_extra_refusals(rep, rule, subj, guards, expected, ranges, sp):
-    """every refusal met on the evaluated path is one the specification asks for, or holds for every valid input"""
+    """every refusal met on the evaluated path is one the specification asks for (however it is written), holds for
+    every valid input, or only excludes non-ASCII strings (no valid identifier has a non-ASCII character)"""
     saved = sym.CTX; sym.CTX = ranges
     try:
         extra = []
         for x in guards:
             c = x['cond']
             if c in expected: continue
+            if is_term(c) and any(u[0] == 'call' and u[1] == 'is_ascii' for u in subterms(c)): continue
             c2 = rebuild(rebuild(c, lambda y: None), lambda y: None) if is_term(c) else c
             if c2 == TRUE: continue
+            if is_term(c) and len(cond_atoms(ite(c, ONE, ZERO))) <= 8 and any(equal(ite(c, ONE, ZERO), ite(e_, ONE, ZERO))[0] for e_ in expected): continue
             extra.append(show(c) if is_term(c) else repr(c))
     finally:
         sym.CTX = saved
@@ -97,33 +107,31 @@ def uuid(f, rep):
     b = f.bodies.get('aml::Uuid::new')
     if not b: rep.ob('anchor', 'aml::Uuid::new', False, 'not found'); return
     I = new_interp(f)
-    r = run_fn(I, b['def'], sym_args(I, b)); rep.analysed.update([b['def'], 'aml::hex2byte'])
+    r = run_fn(I, b['def'], sym_args(I, b)); rep.analysed.update([b['def'], 'aml::hex2byte'] if 'aml::hex2byte' in f.bodies else [b['def']])
     if I.tops or not isinstance(r, StructV): rep.undecided('uuid-map', 'aml::Uuid::new', I.tops, b['sp']); return
-    ch = ('a', 'name.chars')
-    d = lambda i: ('call', 'to_digit', ('sel', ch, C(i)), C(16))
+    ch = ('a', 'name')
+    sym.SEL_RANGE[ch] = (0, 255)
+    d = lambda i: hexval(('sel', ch, C(i)))
     data = r.fields['name'].fields['data']
     ok = isinstance(data, SeqV) and len(data.segs) == 16
     rep.ob('uuid-map', 'aml::Uuid::new:count', ok, 'a UUID must produce 16 bytes, got %s' % (len(data.segs) if isinstance(data, SeqV) else data), sp=b['sp'])
     if ok:
-        saved = sym.CTX; sym.CTX = {d(i): (0, 15) for i in range(36)}
-        try:
-            for k, (hi, lo) in enumerate(UUID_MAP):
-                want = bor(scale(d(hi), 16), d(lo))
-                got = rebuild(data.segs[k][1], lambda x: None)
-                rep.ob('uuid-map', 'aml::Uuid::new:byte%d' % k, data.segs[k][2] == 1 and got == want, 'byte %d is %s, specified hex pair (%d,%d)' % (k, show(got), hi, lo), sp=b['sp'],
-                       detail={'byte': k, 'value': show(got), 'specified': show(want)})
-        finally:
-            sym.CTX = saved
+        facts = tuple(x['cond'] for x in I.guards if is_term(x['cond']) and not any(u[0] == 'call' for u in subterms(x['cond'])))
+        for k, (hi, lo) in enumerate(UUID_MAP):
+            want = bor(scale(d(hi), 16), d(lo))
+            got = rebuild(data.segs[k][1], lambda x: None)
+            okb = data.segs[k][2] == 1 and (got == want or equal_parts(strip_trunc(got), want, tuple(c_ for c_ in facts if any(u == ('sel', ch, C(hi)) or u == ('sel', ch, C(lo)) for u in subterms(c_))))[0])
+            rep.ob('uuid-map', 'aml::Uuid::new:byte%d' % k, okb, 'byte %d is %s, specified hex pair (%d,%d)' % (k, show(got), hi, lo), sp=b['sp'],
+                   detail={'byte': k, 'value': show(got), 'specified': show(want)})
     g = I.guards
-    def has(cond): return any(x['cond'] == cond for x in g)
-    rep.ob('uuid-refuse', 'length', has(cmp('eq', C(36), ('len', ch))), 'no assertion that the string has 36 characters', sp=b['sp'])
+    rep.ob('uuid-refuse', 'length', _refused(g, cmp('eq', C(36), ('len', ch))), 'no assertion that the string has 36 characters', sp=b['sp'])
     for pos in (8, 13, 18, 23):
-        rep.ob('uuid-refuse', 'dash %d' % pos, has(cmp('eq', ('sel', ch, C(pos)), C(45))), 'no assertion of the separator at position %d' % pos, sp=b['sp'])
+        rep.ob('uuid-refuse', 'dash %d' % pos, _refused(g, cmp('eq', ('sel', ch, C(pos)), C(45))), 'no assertion of the separator at position %d' % pos, sp=b['sp'])
     for pos in [i for pr in UUID_MAP for i in pr]:
-        rep.ob('uuid-refuse', 'hex %d' % pos, has(('call', 'is_digit', ('sel', ch, C(pos)), C(16))), 'a non-hex character at position %d is not refused' % pos, sp=b['sp'])
+        rep.ob('uuid-refuse', 'hex %d' % pos, _refused(g, hexcond(('sel', ch, C(pos)))), 'a non-hex character at position %d is not refused' % pos, sp=b['sp'])
     # ... and nothing else is refused: every string of that shape must be accepted
-    expected = {cmp('eq', C(36), ('len', ch))} | {cmp('eq', ('sel', ch, C(pos)), C(45)) for pos in (8, 13, 18, 23)} | {('call', 'is_digit', ('sel', ch, C(pos)), C(16)) for pr in UUID_MAP for pos in pr}
-    _no_extra_refusals(rep, 'uuid-accept', 'aml::Uuid::new', g, expected, {d(i): (0, 15) for i in range(36)}, b['sp'])
+    expected = [cmp('eq', C(36), ('len', ch))] + [cmp('eq', ('sel', ch, C(pos)), C(45)) for pos in (8, 13, 18, 23)] + [hexcond(('sel', ch, C(pos))) for pr in UUID_MAP for pos in pr]
+    _no_extra_refusals(rep, 'uuid-accept', 'aml::Uuid::new', g, expected, {}, b['sp'])
     e1, I1, _ = emission(f, 'aml::Uuid'); e2, I2, _ = emission(f, 'aml::BufferData')
     rep.analysed.add(f.method('Aml', 'aml::Uuid', 'to_aml_bytes'))
     m = {('a', 'self.data'): ('a', 'self.name.data')}
